@@ -431,7 +431,7 @@ QUICK.update({
             "dir_look_n4_s8", "dir_rm_n3_s2_v2"],
     "C10": ["c06_seek_total", "api_invalid_names", "api_ref_new_stream_exists", "api_ref_parent_is_stream",
             "api_ref_remove_stream_on_storage", "api_ref_storage_on_stream", "api_ref_escape_root", "api_ref_clsid_on_stream",
-            "cache_c_refused_seeks_change_nothing_min"],
+            "cache_c_refused_seeks_change_nothing_min", "cache_c_refused_seeks_with_dirty_buffer_min"],
     "C11": ["alloc_next_total", "chain_new_total", "mini_next_total"] + _WALK_Q +
            ["c11_incons_eoc100_write0", "c11_incons_eoc100_resize50", "c11_incons_short300_write_beyond", "c11_incons_reg_in_mini_resize0",
             "c11_resize_u64max", "c11_write_data_overflow", "c11_write_total", "c11_incons_regshort_resize4500", "c11_root_cycle_append", "open_uncovered_reuse"],
